@@ -5,7 +5,9 @@ JSON-lines driver of the `Files` engine (C33, C34).
 
 request  {"op": "collect" | "stage", "dest": str, "supported": nat, "table": [[mountpoint, fstype]…], "get": "str"|"comp",
           "ex": [str…], "nextId": nat, "prim": "ref" | "script", "script": [resp…],
-          "fields": [{"name": str, "value": tree, "typed": bool, "truthy": bool, "mode": nat, "coll": nat}…]}
+          "fields": [{"name": str, "value": tree, "ty": type, "truthy": bool, "mode": nat, "coll": nat}…]}
+type     {"k":"file","n":str} | {"k":"atom","n":str} | {"k":"union","a":[type…]} | {"k":"map","a":[type,type]}
+         | {"k":"seq","a":[type…],"ell":bool}
 tree     {"t":"atom","v":str} | {"t":"file","oid":nat,"cls":str,"paths":[str…],"content":nat}
          | {"t":"list"|"tuple"|"dict","oid":nat,"c":[tree…]}          (dict: k1,v1,k2,v2,…)
 resp     {"cls":str,"paths":[str…],"supported":nat,"clashes":[str…], "err":str}            the call raised
@@ -62,8 +64,22 @@ def respOfJson (j : Json) : Except String Resp := do
   | .ok e => return ⟨key, sup, cl, .error (strOf (← e.getStr?))⟩
   | .error _ => return ⟨key, sup, cl, .ok (← getStrs j "out", ← opOfString (← getStr j "op"))⟩
 
+partial def tyOfJson (j : Json) : Except String Ty := do
+  let k ← getStr j "k"
+  match k with
+  | "file" => return .file (strOf (← getStr j "n"))
+  | "atom" => return .atom (strOf (← getStr j "n"))
+  | "union" => return .union (← (← getArr j "a").toList.mapM tyOfJson)
+  | "map" =>
+    let a ← (← getArr j "a").toList.mapM tyOfJson
+    match a with
+    | [kt, vt] => return .mapping kt vt
+    | _ => throw "map-arity"
+  | "seq" => return .seq (← (← getArr j "a").toList.mapM tyOfJson) (← j.getObjValAs? Bool "ell")
+  | _ => throw s!"bad-type {k}"
+
 def fieldOfJson (j : Json) : Except String Field := do
-  return { name := strOf (← getStr j "name"), typed := ← j.getObjValAs? Bool "typed",
+  return { name := strOf (← getStr j "name"), ty := ← tyOfJson (← j.getObjVal? "ty"),
            truthy := ← j.getObjValAs? Bool "truthy", mode := Mode.ofNat (← getNat j "mode"),
            coll := ← getNat j "coll", value := ← valOfJson (← j.getObjVal? "value") }
 
